@@ -65,6 +65,12 @@ def gen_cases(tier, seed):
         cases.append({'shape': 'seed:' + tag, 'src': src, 'all_interpreters': True})
     cases.extend(exprgen.random_cases(seed, nrand, depth=6))
     cases.extend(constgen.const_cases(seed, nconst))
+    # quoting-hostile string / bytes / f-string contents in every literal position (the canary names are inert here: nothing is executed by a round trip)
+    from vf.gen import strgen
+    hostile = strgen.cases(seed, '/nonexistent/vf_canary', 'vf_no_such_module', limit=600 if tier == 'quick' else None)
+    hostile += strgen.random_cases(seed, '/nonexistent/vf_canary', 'vf_no_such_module', 300 if tier == 'quick' else 8000)
+    for c in hostile:
+        cases.append({'shape': 'strings.' + c['shape'], 'src': c['src']})
     for c in cases:
         c['op'] = 'rt'
     return cases
